@@ -668,11 +668,20 @@ def shared_sub(rng, sid):
                 'targets': [{'name': name, 'n': 6, 'where': 'sub'}]}
     if r < 0.8:
         bp = {'id': sid, 'cls': 'StringGrader', 'cfg': {'case_sensitive': False}}
+        if maybe(rng, 0.2):
+            bp['cfg']['debug'] = True
         return {'bp': bp, 'id': sid, 'items': {'right': ['a', 'b', 'c', 'd'], 'wrong': ['x', 'y'], 'bad': []},
                 'targets': []}
-    bp = {'id': sid, 'cls': 'FormulaGrader', 'cfg': {'variables': ['x']}}
-    return {'bp': bp, 'id': sid, 'items': {'right': ['x', '2*x', 'x^2', 'x+1'], 'wrong': ['3*x', '0'],
-                                           'bad': ['x+', 'foo(x)']}, 'targets': []}
+    bp = {'id': sid, 'cls': pick(rng, ['FormulaGrader', 'FormulaGrader', 'NumericalGrader']), 'cfg': {}}
+    if bp['cls'] == 'FormulaGrader':
+        bp['cfg']['variables'] = ['x']
+        items = {'right': ['x', '2*x', 'x^2', 'x+1'], 'wrong': ['3*x', '0'], 'bad': ['x+', 'foo(x)']}
+    else:
+        items = {'right': ['1', '2', '3', '4'], 'wrong': ['5', '0.5'], 'bad': ['1/0', '1+']}
+    if maybe(rng, 0.35):
+        # the author asked for debugging output of this subgrader
+        bp['cfg']['debug'] = True
+    return {'bp': bp, 'id': sid, 'items': items, 'targets': []}
 
 
 TEMPLATES = {
